@@ -4,4 +4,5 @@ let () =
   | _ :: "tree" :: _ -> D_tree.run ()
   | _ :: "harr" :: _ -> D_harr.run ()
   | _ :: "str" :: _ -> D_str.run ()
+  | _ :: "hashfn" :: _ -> D_hashfn.run ()
   | _ -> prerr_endline "usage: driver <area> < ops"; exit 2
